@@ -29,6 +29,53 @@ def Op.argsOk : Op → Prop
   | .print _ _ args => ∀ v ∈ args, v.argOk
   | _ => True
 
+/-! ### undefined behaviour is not "no exception documented"
+
+  `R.exc?` maps `ub` to `none`, and `none` in a specification table means "must succeed".  The places where the model answers `ub`
+  for a well-formed state and well-formed arguments are named here (`X.ubTerritory`: the territory of finding
+  KF-C12-foreach-noniter — `foreach` over an object without `Iter` calls through a NULL instance pointer; the documented answer
+  is the dispatcher's ClassError, and that is what the `spec` tables say) and excluded from `C12_raises_exactly_*` by an explicit
+  hypothesis; `C12_foreach_noniter_refuted` states that the model is `ub` on all of it, `C12_no_ub_*` that it is `ub` nowhere else. -/
+
+/-- a directive as the first segment of `print_to` into a sink that is not a String: not modelled (both sides of the
+    correspondence answer bad-op) -/
+def Op.directiveFirst : Op → Bool
+  | .print _ [] _ => false
+  | .print _ (.lit _ :: _) _ => false
+  | .print _ _ _ => true
+  | _ => false
+
+/-- Array: `concat` from a String (`len` succeeds, then `foreach`); `assign` from any object (no `Iter`) -/
+def Arr.ubTerritory : Op → Bool
+  | .concat (.scalar (.str _)) => true
+  | .assign .null => false
+  | .assign _ => true
+  | _ => false
+
+/-- List: `concat` from any object that is not NULL -/
+def Lst.ubTerritory : Op → Bool
+  | .concat (.scalar .null) => false
+  | .concat (.scalar _) => true
+  | _ => false
+
+/-- Tuple: `concat` from a String into a heap Tuple; `assign` from any object -/
+def Tup.ubTerritory (t : Tup) : Op → Bool
+  | .concat (.scalar (.str _)) => !t.alloc.nonHeap
+  | .assign .null => false
+  | .assign _ => true
+  | _ => false
+
+/-- Table: `assign` from a String (`len` succeeds, then `foreach`) -/
+def Tab.ubTerritory : Op → Bool
+  | .assign (.str _) => true
+  | _ => false
+
+/-- Tree: `assign` from any object -/
+def Tre.ubTerritory : Op → Bool
+  | .assign .null => false
+  | .assign _ => true
+  | _ => false
+
 /-! ### Array -/
 
 def Arr.wf (a : Arr) : Prop :=
@@ -63,13 +110,12 @@ def Arr.spec (a : Arr) : Op → Option Exc
   | .len => none
   | .concat (.seq vs) => vs.findSome? (elemExc a.ty)
   | .concat (.scalar .null) => some .ValueError
-  | .concat (.scalar (.str _)) => none                 -- ends in undefined behaviour (foreach finding), not in an exception
-  | .concat (.scalar _) => some .ClassError
+  | .concat (.scalar _) => some .ClassError            -- not iterable (a String: the model is `ub` there, `Arr.ubTerritory`)
   | .assign .null => some .ValueError
-  | .assign _ => none                                  -- undefined behaviour (foreach finding)
+  | .assign _ => some .ClassError                      -- not iterable (model: `ub`, `Arr.ubTerritory`)
   | .print _ [] _ => none
   | .print _ (.lit _ :: _) _ => some .ClassError
-  | .print _ _ _ => none                               -- not modelled
+  | .print _ _ _ => none                               -- not modelled (`Op.directiveFirst`)
 
 /-! ### List -/
 
@@ -96,7 +142,7 @@ def Lst.spec (l : Lst) : Op → Option Exc
   | .len => none
   | .concat (.seq vs) => vs.findSome? (elemExc l.ty)
   | .concat (.scalar .null) => some .ValueError
-  | .concat (.scalar _) => none                        -- undefined behaviour (foreach finding)
+  | .concat (.scalar _) => some .ClassError            -- not iterable (model: `ub`, `Lst.ubTerritory`)
   | .assign .null => some .ValueError
   | .assign (.str s) => if s.length = 0 then none else some .ClassError
   | .assign _ => some .ClassError
@@ -123,10 +169,10 @@ def Tup.spec (t : Tup) : Op → Option Exc
   | .len => none
   | .concat (.seq _) => heapExc t.alloc
   | .concat (.scalar .null) => some .ValueError
-  | .concat (.scalar (.str _)) => heapExc t.alloc      -- then undefined behaviour (foreach finding)
+  | .concat (.scalar (.str _)) => (heapExc t.alloc).or (some .ClassError)   -- heap: model `ub` (`Tup.ubTerritory`)
   | .concat (.scalar _) => some .ClassError
   | .assign .null => some .ValueError
-  | .assign _ => none                                  -- undefined behaviour (foreach finding)
+  | .assign _ => some .ClassError                      -- not iterable (model: `ub`, `Tup.ubTerritory`)
   | .print _ [] _ => none
   | .print _ (.lit _ :: _) _ => some .ClassError
   | .print _ _ _ => none
@@ -153,8 +199,7 @@ def Tab.spec (t : Tab) : Op → Option Exc
   | .resize n => if n ≠ 0 ∧ n < t.items.length then some .FormatError else none
   | .len => none
   | .assign .null => some .ValueError
-  | .assign (.str _) => none
-  | .assign _ => some .ClassError
+  | .assign _ => some .ClassError                      -- a String: model `ub` (`Tab.ubTerritory`)
   | .print _ [] _ => none
   | .print _ (.lit _ :: _) _ => some .ClassError
   | .print _ _ _ => none
@@ -172,7 +217,7 @@ def Tre.spec (t : Tre) : Op → Option Exc
   | .resize n => if n ≠ 0 then some .FormatError else none
   | .len => none
   | .assign .null => some .ValueError
-  | .assign _ => none
+  | .assign _ => some .ClassError                      -- not iterable (model: `ub`, `Tre.ubTerritory`)
   | .print _ [] _ => none
   | .print _ (.lit _ :: _) _ => some .ClassError
   | .print _ _ _ => none
